@@ -68,6 +68,12 @@ def check(run):
 
     # R10.2 primitives (shared with C06)
     C06.check_primitive_returns(run, "R10.2")
+    # the string copy loop is part of the count as soon as it reports one itself
+    C06.check_write_string(run)
+    for o in run.obs:
+        if o.rule == "R06.5":
+            o.rule = "R10.2"
+    run.floors.pop("R06.5", None)
 
     # R10.3 single sink
     sink_callers = set()
